@@ -68,9 +68,9 @@ class API:
             'tx_set_pa_config': ('any', [E('sx127x_pa_pin_t'), ('int', -6, 22)]),
             'tx_set_ocp': ('any', [('bool',), ('u8',)]),
             'lora_tx_set_for_transmission': ('lora', [('bytes', 0, 255)]),
-            'lora_set_ppm_offset': ('lora', [('int', 0, 20000)]),
-            'fsk_ook_tx_set_for_transmission': ('fskook', [('bytes', 0, 300)]),
-            'fsk_ook_tx_set_for_transmission_with_address': ('fskook', [('bytes', 0, 300), ('u8',)]),
+            'lora_set_ppm_offset': ('lora', [('int', -400000, 400000)]),
+            'fsk_ook_tx_set_for_transmission': ('fskook', [('bytes', 0, 2100)]),
+            'fsk_ook_tx_set_for_transmission_with_address': ('fskook', [('bytes', 0, 2100), ('u8',)]),
             'fsk_ook_tx_start_beacon': ('fskook', [('bytes', 0, 66), ('beaconiv',)]),
             'fsk_ook_tx_stop_beacon': ('fskook', []),
             'fsk_ook_set_bitrate': ('fskook', [('f32', 1200.0, 300000.0)]),
@@ -139,7 +139,8 @@ class API:
                                       f32bits(1e-30), f32bits(3e38), f32bits(-lo)]))]
             return [str(f32bits(x))]
         if k == 'bytes':
-            n = r.choice([spec[1], 1, 2, 30, 31, 32, 62, 63, 64, 65, 66, 94, 255, r.randint(spec[1], spec[2]), r.randint(spec[1], min(spec[2], 40))])
+            n = r.choice([spec[1], 1, 2, 30, 31, 32, 62, 63, 64, 65, 66, 94, 255, r.randint(spec[1], min(spec[2], 300)), r.randint(spec[1], min(spec[2], 40)),
+                          r.choice([254, 256, 2046, 2047, 2048, spec[2]]) if spec[2] > 300 else spec[2]])
             n = max(spec[1], min(spec[2], n))
             return [self.bytes_hex(n)]
         if k == 'implicit':
@@ -758,6 +759,98 @@ class Scripts:
         self.emit('irq')
         if r.random() < 0.3:
             self.emit('irq')
+
+
+    def nocb(self, n):
+        """events that would invoke a callback while none is registered (NULL pointers): the
+        handler must do everything else (acknowledge, read/flush, reset the per-packet state), so
+        that the next packet or frame, with the callback registered, is handled as a first one.
+        Decided by the trace correspondence and, for the second packet, by the monitors."""
+        r = self.rnd
+        for _ in range(n):
+            kind = r.choice(['fskrx', 'fskrx', 'lorarx', 'fsktx', 'loratx', 'cad'])
+            self.begin('nocb', kind)
+            if kind == 'fskrx':
+                mod = r.choice([FSK, OOK])
+                self.prologue(mod, rand_chip=r.random() < 0.5, callbacks=False)
+                crc = r.choice([0x08, 0x18])
+                filt = r.choice([0, 2])
+                self.emit('fsk_ook_set_crc %d' % crc)
+                self.emit('fsk_ook_set_address_filtering %d 17 255' % filt)
+                self.emit('fsk_ook_set_packet_format 0x80 255')
+                self.emit('set_opmod 5 %d' % mod)
+                for k in range(2):
+                    plen = r.choice([0, 1, 30, 31, 62, 63, 64, 100, r.randint(0, 254)])
+                    payload = [r.randint(0, 255) for _ in range(plen)]
+                    frame = self.fsk_frame(True, 17 if filt else None, payload)
+                    self.fsk_rx_schedule(frame, crc, True, True, bool(filt))
+                    if k == 0:
+                        self.emit('dump')
+                        self.emit('rx_set_callback 1')
+                    else:
+                        self.emit('#= fskrx 1 %s' % (''.join('%02x' % b for b in payload) or '-'))
+            elif kind == 'lorarx':
+                self.prologue(LORA, rand_chip=r.random() < 0.5, callbacks=False)
+                self.emit('env chip l 0x24 0')
+                self.emit('lora_reset_fifo')
+                self.emit('set_opmod 5 0x80')
+                for k in range(2):
+                    data = self.api.bytes_hex(r.choice([1, 5, 64, 255]))
+                    self.emit('env lorarx %d 0 %s' % (r.choice([0, 200, r.randint(0, 255)]), data))
+                    self.emit('irq')
+                    if k == 0:
+                        self.emit('dump')
+                        self.emit('rx_set_callback 1')
+                    else:
+                        self.emit('#= lorarx 0 %s' % data)
+            elif kind == 'fsktx':
+                mod = r.choice([FSK, OOK])
+                self.prologue(mod, rand_chip=r.random() < 0.5, callbacks=False)
+                self.emit('fsk_ook_set_packet_format 0x80 255')
+                self.emit('set_opmod 1 %d' % mod)
+                for k in range(2):
+                    plen = r.choice([1, 30, 63, 64, 65, 128, 254])
+                    payload = [r.randint(0, 255) for _ in range(plen)]
+                    frame = self.fsk_frame(True, None, payload)
+                    self.emit('write_register 0x3f 0x10')
+                    self.emit('set_opmod 3 %d' % mod)
+                    if k == 1:
+                        self.emit('oncb tx set_opmod 1 %d' % mod)
+                        self.emit('#= fsktx_begin')
+                    self.emit('fsk_ook_tx_set_for_transmission %s' % ''.join('%02x' % b for b in payload))
+                    self.tx_schedule(len(frame))
+                    self.emit('env chip f 0x3f 0')
+                    if k == 0:
+                        self.emit('dump')
+                        self.emit('set_opmod 1 %d' % mod)
+                        self.emit('tx_set_callback 1')
+                    else:
+                        self.emit('#= fsktx_end 1 %s' % ''.join('%02x' % b for b in frame))
+                        self.emit('dump')
+            elif kind == 'loratx':
+                self.prologue(LORA, rand_chip=r.random() < 0.5, callbacks=False)
+                self.emit('lora_reset_fifo')
+                for k in range(2):
+                    data = self.api.bytes_hex(r.choice([1, 16, 255]))
+                    self.emit('lora_tx_set_for_transmission %s' % data)
+                    self.emit('set_opmod 3 0x80')
+                    self.emit('env loraflags 8')
+                    self.emit('irq')
+                    if k == 0:
+                        self.emit('dump')
+                        self.emit('tx_set_callback 1')
+                    else:
+                        self.emit('#= txdone 8')
+            else:
+                self.prologue(LORA, rand_chip=r.random() < 0.5, callbacks=False)
+                self.emit('set_opmod 7 0x80')
+                self.emit('env loraflags %d' % r.choice([0x04, 0x05]))
+                self.emit('irq')
+                self.emit('dump')
+                self.emit('lora_cad_set_callback 1')
+                self.emit('set_opmod 7 0x80')
+                self.emit('env loraflags %d' % r.choice([0x04, 0x05]))
+                self.emit('irq')
 
     def fsk_tx(self, n, maxlen_fixed=2047):
         """C04: frames of every length; the simulated modulator consumes bytes between and
